@@ -11,6 +11,7 @@
   S4  lifetime structure: levels visited bottom-up; the factor applied to a level's free-leaf count has no
       intra-iteration dependence on that level's own size (it is the product of the *lower* levels only);
       the free-leaf count is size minus used index of the same level; one accumulation per level
+      every update of loop-carried state in the level loop dominates every latch (no `continue` around recording a level's size)
 Not decided: equality with the mixed-radix rule / lifetime = leaves - counter for all counters (numeric identities).
 """
 from collections import deque
